@@ -155,3 +155,70 @@ def run_forked(fn, timeout=600):
         return pickle.loads(data)
     except Exception as ex:  # noqa: BLE001
         return ("error", "no result from child: %r" % ex)
+
+
+class NeedChoice(Exception):
+    def __init__(self, n):
+        self.n = n
+
+
+class ScriptedChoice:
+    """random_choice stand-in for exhaustive path enumeration: follows a script of choice indices, records every
+    probability vector, and raises NeedChoice(len(p)) when the script is exhausted."""
+
+    def __init__(self, script):
+        self.script = list(script)
+        self.probs = []
+
+    def __call__(self, p):
+        p = np.array(p, dtype=float, copy=True)
+        k = len(self.probs)
+        if k >= len(self.script):
+            raise NeedChoice(len(p))
+        self.probs.append(p)
+        return int(self.script[k])
+
+
+def enumerate_paths(run, max_paths=200000):
+    """Depth-first enumeration of every sequence of random choices of a (compound) move.
+
+    `run(recorder)` must execute the real code with `recorder` standing in for random_choice and return the final
+    state (hashable).  Yields (final_state, path_probability, recorder.probs) for every complete path."""
+    stack = [[]]
+    n_paths = 0
+    while stack:
+        script = stack.pop()
+        rec = ScriptedChoice(script)
+        try:
+            final = run(rec)
+        except NeedChoice as need:
+            for c in range(need.n):
+                stack.append(script + [c])
+            continue
+        pr = 1.0
+        for vec, c in zip(rec.probs, script):
+            pr *= float(vec[c])
+        n_paths += 1
+        if n_paths > max_paths:
+            raise RuntimeError("too many paths")
+        yield final, pr, rec.probs
+
+
+class NpRandomProxy:
+    """Stands in for a module-level `np`: np.random.shuffle / permutation return a forced order, everything else is numpy."""
+
+    class _R:
+        def __init__(self, order):
+            self.order = np.asarray(order)
+
+        def shuffle(self, arr):
+            arr[:] = arr[self.order].copy() if arr.ndim > 1 else self.order
+
+        def permutation(self, x):
+            return self.order.copy()
+
+    def __init__(self, order):
+        self.random = NpRandomProxy._R(order)
+
+    def __getattr__(self, name):
+        return getattr(np, name)
